@@ -102,6 +102,27 @@ fn judge_curve2(case: &Case, l: &mut Local) {
             l.gray("closest point with tied minimisers");
         }
     }
+    // directional measurements from surface points placed off the lattice lines (so that no ray runs
+    // through a vertex): farthest extent along the normal, and the crossings of the normal line
+    for (px, py, nx, ny) in [(0.37, -1.0, 0.0, 1.0), (-1.0, 0.63, 1.0, 0.0), (1.37, 3.0, 0.0, -1.0), (0.37, 0.21, 0.6, 0.8), (2.6, 2.9, -1.0, -2.0)] {
+        l.eval();
+        let sp = SurfacePoint2::new_normalize(Point2::new(px, py), Vector2::new(nx, ny));
+        let spt = sp.transformed(&iso);
+        let (e0, e1) = (c.max_dist_in_direction(&sp), ct.max_dist_in_direction(&spt));
+        l.check("curve2: farthest extent along a surface point's normal is frame independent", "", (e0 - e1).abs() <= tol, mk, || format!("sp {:?}: {} vs {}", sp, e0, e1));
+        let ray0 = parry2d_f64::query::Ray::new(sp.point, sp.normal.into_inner());
+        let ray1 = parry2d_f64::query::Ray::new(spt.point, spt.normal.into_inner());
+        match (guarded(|| c.ray_intersections(&ray0)), guarded(|| ct.ray_intersections(&ray1))) {
+            (Ok(a), Ok(b)) => {
+                let same = a.len() == b.len() && a.iter().zip(b.iter()).all(|(x, y)| (x.0 - y.0).abs() <= 1e-7 * (1.0 + iso.translation.vector.norm()));
+                l.outcome(hash_of(&("crossings", a.len().min(5))));
+                l.check("curve2: crossings of a surface point's normal line are frame independent", "", same, mk, || format!("sp {:?}: {:?} vs {:?}", sp, a, b));
+            }
+            (a, b) => {
+                l.check("curve2: crossings of a surface point's normal line are frame independent", "panic", false, mk, || format!("{:?} {:?}", a.err(), b.err()));
+            }
+        }
+    }
     for f in [0.0, 0.137, 0.3, 0.5, 0.77, 1.0] {
         l.eval();
         match (c.at_fraction(f), ct.at_fraction(f)) {
